@@ -21,7 +21,9 @@ pub static PROP: Prop = Prop {
            element, call argument, macro range, macro body, has, coalesce, f-string, ?: arm, match arm, index, receiver); \
            acyclic graphs are evaluated in-process against the harness's own substitution value, graphs with a reachable \
            cycle run in an isolated child process and must end in an error; plain chains of length 1..64 (<=16 exact, beyond \
-           exact-or-error); a 64-element macro whose body references a program. Non-trivial = >= 2 roles collide on one \
+           exact-or-error); a 64-element macro whose body references a program; self and mutual cycles through 1..8 nested \
+           macro bodies and through every macro over a map receiver, in children of the unoptimised and the release build \
+           on both stack sizes. Non-trivial = >= 2 roles collide on one \
            name, or the graph has a cycle or depth >= 8, or an edge passes through a macro/call/f-string; distinct by \
            configuration.",
     assumptions: &[
